@@ -112,8 +112,6 @@ Proof.
     destruct (eval_imports classes r Ra) as [[R2 l2]|] eqn:Er; [|discriminate].
     inversion H; subst. eapply IH; eauto. eapply uq_rnew; eauto.
 Qed.
-Lemma uq_fframe c names R R' : fframe c names R R' -> True.
-Proof. trivial. Qed.
 Lemma uq_set_flags l v : forall R R', set_flags l v R = Some R' -> uq R -> uq R'.
 Proof.
   induction l as [|n r IH]; intros R R' H U; simpl in H.
